@@ -332,7 +332,9 @@ Definition parse_result (r : response) : outcome (option json) :=
   if isSome (r_error r) then Err
   else if negb (is_nil (r_resource r)) then Err
   else match r_result r with
-       | Some (raw, j) => if is_nil raw then Ok None else Ok (Some j)
+       | Some (raw, j) =>
+         if is_nil raw then Ok None
+         else match j with JNull => Ok None | _ => Ok (Some j) end   (* null sets ParseResult's local copy of v, not *v *)
        | None => Ok None
        end.
 
@@ -422,9 +424,11 @@ Definition meta_members (m : option rmeta) : list (bytes * json) :=
 Definition err_ast (e : rerror) : json :=
   JObj ([(s2b "code", JStr (e_code e)); (s2b "message", JStr (e_msg e))] ++
         match e_data e with Some d => [(s2b "data", d)] | None => [] end).
+Definition err_internal : rerror := MkErr (s2b "system.internalError") (s2b "Internal error") None.
 Definition success_ast (result : json) (m : option rmeta) : json := JObj ((s2b "result", result) :: meta_members m).
+(* Request.error: a nil *Error is replaced by ErrInternalError *)
 Definition error_ast (e : option rerror) (m : option rmeta) : json :=
-  JObj ((s2b "error", match e with Some e => err_ast e | None => JNull end) :: meta_members m).
+  JObj ((s2b "error", err_ast (match e with Some e => e | None => err_internal end)) :: meta_members m).
 Definition resource_ast (rid : bytes) (m : option rmeta) : json :=
   JObj ((s2b "resource", JObj [(s2b "rid", JStr rid)]) :: meta_members m).
 
